@@ -291,3 +291,18 @@ func WithRepeatedAnnotations(t *rapid.T, g *Cfg, s *Spec) *Spec {
 	}
 	return s
 }
+
+// SentinelPrefix puts the text of the sentinel an `risleaf` claims to
+// be (through its Is method) in front of its own message, in a third
+// of those leaves: an error that claims to be a well-known sentinel
+// may carry any message, and only the sentinel's exact text is known
+// to be safe (seeded change C03-15 widened that to a prefix match).
+func SentinelPrefix(t *rapid.T, s *Spec) (n int) {
+	for _, nd := range s.Nodes() {
+		if nd.K == "risleaf" && len(nd.S) == 2 && Sentinels[nd.S[1]] != nil && rapid.IntRange(0, 2).Draw(t, "sentinelprefix") == 0 {
+			nd.S[0] = Sentinels[nd.S[1]].Error() + nd.S[0]
+			n++
+		}
+	}
+	return n
+}
